@@ -346,15 +346,12 @@ def correctOvercount (awarded : List (Cand × Nat × Rat)) (nRem : Nat) : Except
       if x.1 ∈ keptC then some (x.1, x.2.1)
       else if x.2.1 > 1 then some (x.1, x.2.1 - 1) else none))
 
-/-- `_elect_by_quota` (L273-305); `q = none` is INF (nobody holds it) -/
-def electByQuota (acceptEqual : Bool) (q : Option Rat) (nRem : Nat) (prev maxS : Seats) (tp : Votes) :
+/-- `_elect_by_quota` (L273-305) for a finite quota value -/
+def electByQuota (acceptEqual : Bool) (qv : Rat) (nRem : Nat) (prev maxS : Seats) (tp : Votes) :
     Except Err Seats :=
-  match q with
-  | none => .ok []
-  | some qv =>
-    let qm := quotaMultiples acceptEqual qv prev maxS tp
-    if (qm.map (·.2.1)).sum > nRem then correctOvercount qm nRem
-    else .ok (qm.map (fun x => (x.1, x.2.1)))
+  let qm := quotaMultiples acceptEqual qv prev maxS tp
+  if (qm.map (·.2.1)).sum > nRem then correctOvercount qm nRem
+  else .ok (qm.map (fun x => (x.1, x.2.1)))
 
 /-- `_retained_count` (L344-351) -/
 def retainedCount (step : Int) (len : Nat) : Nat :=
@@ -378,46 +375,84 @@ structure CountOut where
   /-- the elect-all-remaining shortcut was taken (L175-177) -/
   shortcut : Bool
 
+/-- `avail_seats` (L169-173): candidates by non-increasing total (stable), `none` = INF -/
+def availSeats (a : Alloc) (prev maxS : Seats) : List (Cand × Option Int) :=
+  ((sortDesc (totalsInPlay a)).map (·.1)).map
+    (fun c => (c, (maxGet maxS c).map (fun k => (k : Int) - (seatsGet prev c : Int))))
+
+/-- `tot_avail_seats` (L174) -/
+def totAvail (avail : List (Cand × Option Int)) : Option Int :=
+  avail.foldl (fun acc p => match acc, p.2 with
+    | some s, some k => some (s + k)
+    | _, _ => none) (some 0)
+
+/-- `tot_avail_seats == n_rem_seats and not self.mandatory_quota` (L175) -/
+def shortcutCond (cfg : Cfg) (a : Alloc) (nSeats : Nat) (prev maxS : Seats) : Bool :=
+  decide (totAvail (availSeats a prev maxS) = some (((nSeats - sumSeats prev : Nat)) : Int)) && !cfg.mandatory
+
+/-- elect all remaining, no choice (L176-177) -/
+def electAll (a : Alloc) (prev maxS : Seats) (ds : List Draw) : Except Err (CountOut × List Draw) :=
+  let avail := availSeats a prev maxS
+  if avail.any (fun p => match p.2 with
+      | some k => decide (k < 0)
+      | none => true) then .error (.other "unmodelled:negative available seats")
+  else .ok ({ alloc := [], elected := avail.map (fun p => (p.1, (p.2.getD 0).toNat)),
+              eliminated := [], shortcut := true }, ds)
+
+/-- candidates elected in this count that have reached their maximum (L197-203) -/
+def fullyElected (elected prev maxS : Seats) : List Cand :=
+  (elected.filter (fun ck =>
+    match maxGet maxS ck.1 with
+    | some k => decide (seatsGet (seatsAdd elected prev) ck.1 ≥ k)
+    | none => false)).map (·.1)
+
+/-- `if eliminated: new_allocation = transfer(allocation, eliminated)` (L212-218) -/
+def transferIf (E : Engine) (a : Alloc) (eliminated : List Cand) (ds : List Draw) :
+    Except Err (Alloc × List Draw) :=
+  if eliminated = [] then .ok (a, ds) else transfer E a eliminated ds
+
+/-- somebody holds the quota (L189-203, L212-221) -/
+def afterElection (E : Engine) (a : Alloc) (elected : Seats) (qv : Rat) (prev maxS : Seats) (ds : List Draw) :
+    Except Err (CountOut × List Draw) :=
+  match subtract E (elected.map (fun ck => (ck.1, (ck.2 : Rat) * qv))) a ds with
+  | .error e => .error e
+  | .ok (a1, ds1) =>
+    let eliminated := fullyElected elected prev maxS
+    match transferIf E a1 eliminated ds1 with
+    | .error e => .error e
+    | .ok (a2, ds2) => .ok ({ alloc := a2, elected := elected, eliminated := eliminated, shortcut := false }, ds2)
+
+/-- nobody elected by quota, we have to eliminate (L204-221) -/
+def afterElimination (E : Engine) (a : Alloc) (step : Option Int) (ds : List Draw) :
+    Except Err (CountOut × List Draw) :=
+  let tp := totalsInPlay a
+  match selectRetained step tp with
+  | .error e => .error e
+  | .ok retained =>
+    let eliminated := (tp.map (·.1)).filter (fun c => decide (c ∉ retained))
+    match transferIf E a eliminated ds with
+    | .error e => .error e
+    | .ok (a2, ds2) => .ok ({ alloc := a2, elected := [], eliminated := eliminated, shortcut := false }, ds2)
+
+/-- the `else` branch of `next_count` (L178-221) -/
+def countProper (E : Engine) (cfg : Cfg) (a : Alloc) (nSeats : Nat) (total : Rat) (prev maxS : Seats)
+    (ds : List Draw) : Except Err (CountOut × List Draw) :=
+  match computeQuota cfg total nSeats with
+  | none => afterElimination E a cfg.step ds     -- quota INF: `total // INF` is 0 for everybody
+  | some qv =>
+    if qv ≤ 0 then .error (.other "unmodelled:non-positive quota") else
+    match electByQuota cfg.acceptEqual qv (nSeats - sumSeats prev) prev maxS (totalsInPlay a) with
+    | .error e => .error e
+    | .ok elected =>
+      if elected = [] then afterElimination E a cfg.step ds
+      else afterElection E a elected qv prev maxS ds
+
 /-- `TransferableVoteDistributor.next_count` (L143-221) -/
 def nextCount (E : Engine) (cfg : Cfg) (a : Alloc) (nSeats : Nat) (total : Rat) (prev maxS : Seats)
     (ds : List Draw) : Except Err (CountOut × List Draw) :=
-  if sumSeats prev > nSeats then .error (.other "unmodelled:negative remaining seats") else
-  let nRem : Nat := nSeats - sumSeats prev
-  let tp := totalsInPlay a
-  let order := (sortDesc tp).map (·.1)
-  let avail : List (Cand × Option Int) :=
-    order.map (fun c => (c, (maxGet maxS c).map (fun k => (k : Int) - (seatsGet prev c : Int))))
-  let totAvail : Option Int := avail.foldl (fun acc p => match acc, p.2 with
-    | some s, some k => some (s + k)
-    | _, _ => none) (some 0)
-  if totAvail = some (nRem : Int) ∧ cfg.mandatory = false then
-    -- elect all remaining, no choice
-    if avail.any (fun p => match p.2 with
-        | some k => decide (k < 0)
-        | none => true) then .error (.other "unmodelled:negative available seats")
-    else .ok ({ alloc := [], elected := avail.map (fun p => (p.1, (p.2.getD 0).toNat)),
-                eliminated := [], shortcut := true }, ds)
-  else
-    let q := computeQuota cfg total nSeats
-    if (match q with
-        | some v => decide (v ≤ 0)
-        | none => false) then .error (.other "unmodelled:non-positive quota") else
-    do
-      let elected ← electByQuota cfg.acceptEqual q nRem prev maxS tp
-      if elected ≠ [] then
-        let qv := q.getD 0
-        let (a1, ds1) ← subtract E (elected.map (fun ck => (ck.1, (ck.2 : Rat) * qv))) a ds
-        let eliminated := (elected.filter (fun ck =>
-          match maxGet maxS ck.1 with
-          | some k => decide (seatsGet (seatsAdd elected prev) ck.1 ≥ k)
-          | none => false)).map (·.1)
-        let (a2, ds2) ← if eliminated ≠ [] then transfer E a1 eliminated ds1 else pure (a1, ds1)
-        pure ({ alloc := a2, elected := elected, eliminated := eliminated, shortcut := false }, ds2)
-      else
-        let retained ← selectRetained cfg.step tp
-        let eliminated := (tp.map (·.1)).filter (fun c => decide (c ∉ retained))
-        let (a2, ds2) ← if eliminated ≠ [] then transfer E a eliminated ds else pure (a, ds)
-        pure ({ alloc := a2, elected := [], eliminated := eliminated, shortcut := false }, ds2)
+  if sumSeats prev > nSeats then .error (.other "unmodelled:negative remaining seats")
+  else if shortcutCond cfg a nSeats prev maxS then electAll a prev maxS ds
+  else countProper E cfg a nSeats total prev maxS ds
 
 /-! ## sequential.py: nth_count -/
 
